@@ -665,6 +665,36 @@ typedef struct {
  *
  * The buffer is assumed to have length exactly 65 bytes.
  */
+/*
+ * Check that a coordinate (32 bytes, unsigned big-endian) is lower than
+ * the field modulus p = 2^256 - 2^224 + 2^192 + 2^96 - 1. Returned value
+ * is 1 if the coordinate is in the proper range, 0 otherwise. This is
+ * constant-time.
+ */
+static uint32_t
+coord_in_range(const unsigned char *buf)
+{
+	static const unsigned char P256_P[] = {
+		0xFF, 0xFF, 0xFF, 0xFF, 0x00, 0x00, 0x00, 0x01,
+		0x00, 0x00, 0x00, 0x00, 0x00, 0x00, 0x00, 0x00,
+		0x00, 0x00, 0x00, 0x00, 0xFF, 0xFF, 0xFF, 0xFF,
+		0xFF, 0xFF, 0xFF, 0xFF, 0xFF, 0xFF, 0xFF, 0xFF
+	};
+
+	uint32_t cc;
+	int i;
+
+	/*
+	 * Subtract p from the value; the value is in range if and only
+	 * if there is a final borrow.
+	 */
+	cc = 0;
+	for (i = 31; i >= 0; i --) {
+		cc = (((uint32_t)buf[i] - (uint32_t)P256_P[i] - cc) >> 8) & 1;
+	}
+	return cc;
+}
+
 static uint32_t
 point_decode(p256_jacobian *P, const unsigned char *buf)
 {
@@ -675,6 +705,14 @@ point_decode(p256_jacobian *P, const unsigned char *buf)
 	 * Header byte shall be 0x04.
 	 */
 	r = EQ(buf[0], 0x04);
+
+	/*
+	 * Coordinates shall be lower than the field modulus (the
+	 * computations below work modulo p, and would accept x+p
+	 * or y+p as another encoding of the same point).
+	 */
+	r &= coord_in_range(buf + 1);
+	r &= coord_in_range(buf + 33);
 
 	/*
 	 * Decode X and Y coordinates, and convert them into
